@@ -1,0 +1,186 @@
+//go:build verif
+
+package badger
+
+import (
+	"errors"
+	"sort"
+
+	"github.com/dgraph-io/badger/v4/y"
+)
+
+// Verification exports for the value-log GC check (C15). Add-only; compiled only with
+// `-tags verif`.
+
+// VerifGcState is the value log's bookkeeping as rewrite / decrIteratorCount see it.
+type VerifGcState struct {
+	Fids        []uint32 // every file in filesMap (ascending), including those pending deletion
+	ToBeDeleted []uint32
+	MaxFid      uint32
+	NumIters    int
+	GcActive    bool
+	GcDiscardTs uint64
+	NumWritten  uint32 // numEntriesWritten of the active file
+}
+
+func (db *DB) VerifGcState() VerifGcState {
+	vlog := &db.vlog
+	vlog.filesLock.RLock()
+	defer vlog.filesLock.RUnlock()
+	st := VerifGcState{MaxFid: vlog.maxFid, NumIters: vlog.iteratorCount(),
+		GcActive: db.gcActive.Load(), GcDiscardTs: db.gcDiscardTs.Load(), NumWritten: vlog.numEntriesWritten}
+	for fid := range vlog.filesMap {
+		st.Fids = append(st.Fids, fid)
+	}
+	sort.Slice(st.Fids, func(i, j int) bool { return st.Fids[i] < st.Fids[j] })
+	st.ToBeDeleted = append(st.ToBeDeleted, vlog.filesToBeDeleted...)
+	return st
+}
+
+// VerifGcRecord is one record of a value-log file as logFile.iterate yields it.
+type VerifGcRecord struct {
+	VerifEntry
+	Offset uint32
+}
+
+// VerifGcRecords lists the records of value-log file fid in file order (logFile.iterate, the
+// iteration rewrite itself uses).
+func (db *DB) VerifGcRecords(fid uint32) ([]VerifGcRecord, error) {
+	vlog := &db.vlog
+	vlog.filesLock.RLock()
+	lf, ok := vlog.filesMap[fid]
+	vlog.filesLock.RUnlock()
+	if !ok {
+		return nil, errors.New("verif: no such value log file")
+	}
+	var out []VerifGcRecord
+	lf.lock.RLock()
+	defer lf.lock.RUnlock()
+	_, err := lf.iterate(true, 0, func(e Entry, vp valuePointer) error {
+		out = append(out, VerifGcRecord{VerifEntry: VerifEntry{Key: y.Copy(y.ParseKey(e.Key)), Version: y.ParseTs(e.Key),
+			Meta: e.meta, UserMeta: e.UserMeta, ExpiresAt: e.ExpiresAt, Value: y.Copy(e.Value)}, Offset: vp.Offset})
+		return nil
+	})
+	return out, err
+}
+
+// VerifPhysEntry is one stored entry exactly as the LSM tree holds it: the value is either
+// inline or a pointer (Fid, Offset) into the value log (InVlog).
+type VerifPhysEntry struct {
+	Key         []byte
+	Version     uint64
+	Meta        byte
+	UserMeta    byte
+	ExpiresAt   uint64
+	Value       []byte
+	InVlog      bool
+	Fid, Offset uint32
+}
+
+func verifPhys(key []byte, vs y.ValueStruct) VerifPhysEntry {
+	e := VerifPhysEntry{Key: y.Copy(y.ParseKey(key)), Version: y.ParseTs(key), Meta: vs.Meta,
+		UserMeta: vs.UserMeta, ExpiresAt: vs.ExpiresAt}
+	if vs.Meta&bitValuePointer > 0 {
+		var vp valuePointer
+		vp.Decode(vs.Value)
+		e.InVlog, e.Fid, e.Offset = true, vp.Fid, vp.Offset
+	} else {
+		e.Value = y.Copy(vs.Value)
+	}
+	return e
+}
+
+// VerifPhysTable is one table with its physical entries.
+type VerifPhysTable struct {
+	ID      uint64
+	Entries []VerifPhysEntry
+}
+
+// VerifGcPhys dumps the whole tree physically: active memtable, immutable memtables (oldest
+// first), levels (levelHandler order).
+func (db *DB) VerifGcPhys() (mt []VerifPhysEntry, imm [][]VerifPhysEntry, levels [][]VerifPhysTable) {
+	db.lock.RLock()
+	dump := func(m *memTable) []VerifPhysEntry {
+		var out []VerifPhysEntry
+		it := m.sl.NewUniIterator(false)
+		for it.Rewind(); it.Valid(); it.Next() {
+			out = append(out, verifPhys(it.Key(), it.Value()))
+		}
+		it.Close()
+		return out
+	}
+	if db.mt != nil {
+		mt = dump(db.mt)
+	}
+	for _, m := range db.imm {
+		imm = append(imm, dump(m))
+	}
+	db.lock.RUnlock()
+	for _, lh := range db.lc.levels {
+		lh.RLock()
+		var lv []VerifPhysTable
+		for _, t := range lh.tables {
+			vt := VerifPhysTable{ID: t.ID()}
+			it := t.NewIterator(0)
+			for it.Rewind(); it.Valid(); it.Next() {
+				vt.Entries = append(vt.Entries, verifPhys(it.Key(), it.Value()))
+			}
+			it.Close()
+			lv = append(lv, vt)
+		}
+		lh.RUnlock()
+		levels = append(levels, lv)
+	}
+	return
+}
+
+// VerifItemPtr reports whether the item's value lives in the value log and where.
+func VerifItemPtr(item *Item) (inVlog bool, fid, offset uint32) {
+	if item.meta&bitValuePointer == 0 {
+		return false, 0, 0
+	}
+	var vp valuePointer
+	vp.Decode(item.vptr)
+	return true, vp.Fid, vp.Offset
+}
+
+// VerifGcRewrite runs the production GC on one chosen sealed file: what runGC does after
+// pickLog (garbageCh slot, doRunGC = rewrite + discard-stats reset). The file must be below
+// maxFid (rewrite asserts it) and present.
+func (db *DB) VerifGcRewrite(fid uint32) error {
+	vlog := &db.vlog
+	vlog.filesLock.RLock()
+	lf, ok := vlog.filesMap[fid]
+	maxFid := vlog.maxFid
+	vlog.filesLock.RUnlock()
+	if !ok {
+		return errors.New("verif: no such value log file")
+	}
+	if fid >= maxFid {
+		return errors.New("verif: the active value log file cannot be rewritten")
+	}
+	select {
+	case vlog.garbageCh <- struct{}{}:
+		defer func() { <-vlog.garbageCh }()
+		return vlog.doRunGC(lf)
+	default:
+		return ErrRejected
+	}
+}
+
+// VerifGcDiscardStats returns the discard-stats entry for fid (what pickLog consults).
+func (db *DB) VerifGcDiscardStats() (fid uint32, discard int64) {
+	return db.vlog.discardStats.MaxDiscard()
+}
+
+// VerifValueThreshold is db.valueThreshold().
+func (db *DB) VerifValueThreshold() int64 { return db.valueThreshold() }
+
+// VerifGcReadTxnAt returns a read-only transaction reading at ts that takes no part in the
+// read watermark (so taking read snapshots for the oracle does not move discardTs).
+func (db *DB) VerifGcReadTxnAt(ts uint64) *Txn {
+	txn := db.newTransaction(false, true)
+	txn.readTs = ts
+	txn.doneRead = true
+	return txn
+}
